@@ -133,6 +133,9 @@ pub enum Query {
     Amino { codon: String, pres: QPres, off: usize, tail: usize, fill: u64 },
     /// `table.try_to_codon(amino)`
     Codon { amino: String },
+    /// something else the program does with the library on the same thread between two lookups
+    /// (see noise.rs: other tables, motif search, set operations, ...); executed, never judged
+    Noise { kind: String, arg: u64 },
 }
 
 impl Query {
@@ -140,6 +143,7 @@ impl Query {
         match self {
             Query::Amino { codon, pres, off, tail, .. } => format!("amino({codon}) {pres:?}@{off}+{tail}"),
             Query::Codon { amino } => format!("codon({amino})"),
+            Query::Noise { kind, arg } => format!("noise({kind},{arg:x})"),
         }
     }
 }
@@ -335,7 +339,14 @@ pub fn generate(seed: u64) -> Config {
         if rng.chance(1, 3) {
             blk.insert(0, Query::Codon { amino: a.clone() });
         }
+        if rng.chance(1, 6) {
+            let at = 1 + rng.below(blk.len());
+            blk.insert(at, Query::Noise { kind: (*rng.pick(crate::noise::KINDS)).to_string(), arg: rng.next_u64() });
+        }
         blocks.push(blk);
+    }
+    for _ in 0..rng.below(4) {
+        blocks.push(vec![Query::Noise { kind: (*rng.pick(crate::noise::KINDS)).to_string(), arg: rng.next_u64() }]);
     }
     let mut queries: Vec<Query> = Vec::new();
     let lens: BTreeSet<usize> = if mixed { (1..=max_len).collect() } else { [base_len].into_iter().collect() };
@@ -390,6 +401,7 @@ pub fn generate(seed: u64) -> Config {
 
 pub fn model_answer(entries: &[(String, String)], q: &Query) -> String {
     match q {
+        Query::Noise { .. } => "noise".into(),
         Query::Amino { codon, .. } => {
             let hits: Vec<&(String, String)> = entries.iter().filter(|(c, _)| c == codon).collect();
             match hits.len() {
@@ -783,10 +795,16 @@ fn build_and_query<A: CodonCodec>(cfg: &Config, b: &Build) -> BuildOutcome {
                 Query::Codon { amino: a } => {
                     classify_codon(&table.try_to_codon(Amino::try_from_ascii(a.as_bytes()[0]).expect("harness: amino letter")))
                 }
+                Query::Noise { kind, arg } => {
+                    let _ = crate::noise::run(kind, *arg);
+                    "noise".into()
+                }
             }));
-            answers.push(match got {
-                Ok(s) => s,
-                Err(p) => panic_text(p),
+            answers.push(match (q, got) {
+                // noise belongs to other properties: never judged, not even a panic
+                (Query::Noise { .. }, _) => "noise".into(),
+                (_, Ok(s)) => s,
+                (_, Err(p)) => panic_text(p),
             });
         }
         answers
@@ -818,6 +836,7 @@ pub struct RunStats {
     pub key_queries: usize,
     pub nonkey_queries: usize,
     pub reverse_queries: usize,
+    pub noise_queries: usize,
     pub distinct_orders: usize,
     pub aminos_by_preimages: [usize; 4],
     pub ctor_kinds: BTreeMap<String, usize>,
@@ -857,6 +876,7 @@ fn classify_violation(q: &Query, expected: &str, got: &str) -> &'static str {
                 "forward-wrong-error"
             }
         }
+        Query::Noise { .. } => "noise",
         Query::Codon { .. } => {
             if expected.starts_with("Ok(") && got.starts_with("Ok(") {
                 "reverse-wrong-codon"
@@ -895,6 +915,7 @@ pub fn run(cfg: &Config) -> RunResult {
                 }
             }
             Query::Codon { .. } => stats.reverse_queries += 1,
+            Query::Noise { .. } => stats.noise_queries += 1,
         }
     }
     let mut pre: BTreeMap<&str, usize> = BTreeMap::new();
@@ -1074,6 +1095,7 @@ pub struct BatchOut {
     pub key_queries: u64,
     pub nonkey_queries: u64,
     pub reverse_queries: u64,
+    pub noise_queries: u64,
     pub getrandom_calls: u64,
     pub cross_thread_query_builds: u64,
     pub entropy_values: u64,
@@ -1113,6 +1135,7 @@ pub fn batch(verif_seed: u64, from: u64, to: u64, hashes_path: Option<&str>) -> 
         out.key_queries += (r.stats.key_queries * r.stats.builds) as u64;
         out.nonkey_queries += (r.stats.nonkey_queries * r.stats.builds) as u64;
         out.reverse_queries += (r.stats.reverse_queries * r.stats.builds) as u64;
+        out.noise_queries += (r.stats.noise_queries * r.stats.builds) as u64;
         out.getrandom_calls += r.stats.getrandom_calls;
         out.cross_thread_query_builds += r.stats.cross_thread_query_builds as u64;
         out.entropy_values += r.stats.builds as u64;
@@ -1194,4 +1217,218 @@ pub fn batch(verif_seed: u64, from: u64, to: u64, hashes_path: Option<&str>) -> 
         }
     }
     out
+}
+
+// ------------------------------------------------------------------------------------------------
+// Concurrent scenario: ONE table shared by several threads (`CodonTable` is `Sync`), each making
+// its own lookups at the same time. Executed under a scheduler the simulator owns: Miri (real
+// threads, seeded preemption, race detector) or shuttle (Engine S, scheduling points at every
+// synchronisation operation of the transformed source). The model is the same association list.
+
+pub mod conc {
+    use super::*;
+    use std::sync::atomic::{AtomicUsize, Ordering};
+    use std::sync::Arc;
+
+    /// Relaxed on purpose: logging must not add happens-before edges.
+    static STAMP: AtomicUsize = AtomicUsize::new(0);
+
+    pub struct Plan {
+        pub codec: &'static str,
+        pub entries: Vec<(String, String)>,
+        pub threads: Vec<Vec<Query>>,
+    }
+
+    pub fn plan(seed: u64, threads_override: Option<usize>, ops_override: Option<usize>) -> Plan {
+        let mut rng = Rng::new(seed ^ 0xC15C_0C0C);
+        let codec = if rng.chance(1, 2) { "dna" } else { "iupac" };
+        let alpha = alphabet(codec);
+        let per_word = if codec == "dna" { 32 } else { 16 };
+        let len = rng.range(1, 3);
+        let mixed = rng.chance(1, 4);
+        let n = rng.range(2, 6);
+        let pool: Vec<u8> = {
+            let mut a = AMINO_LETTERS.to_vec();
+            rng.shuffle(&mut a);
+            a.truncate(rng.range(2, 4));
+            a
+        };
+        let mut entries: Vec<(String, String)> = Vec::new();
+        let mut tries = 0;
+        while entries.len() < n && tries < 200 {
+            tries += 1;
+            let l = if mixed { rng.range(1, 3) } else { len };
+            let c = rand_codon(&mut rng, alpha, l);
+            if entries.iter().all(|e| e.0 != c) {
+                let a = *rng.pick(&pool);
+                entries.push((c, (a as char).to_string()));
+            }
+        }
+        let t_full = 2 + rng.below(3);
+        let mut threads = Vec::new();
+        for _ in 0..4 {
+            let k = ops_override.unwrap_or(3 + rng.below(4)).max(1).min(8);
+            let mut qs = Vec::new();
+            for _ in 0..k {
+                qs.push(match rng.below(8) {
+                    0..=4 => {
+                        // a key (threads prefer different keys, so per-table caches get thrashed)
+                        let e = &entries[rng.below(entries.len())];
+                        gen_query(&mut rng, e.0.clone(), per_word)
+                    }
+                    5 => {
+                        let e = &entries[rng.below(entries.len())];
+                        let zero = alpha[if codec == "dna" { 0 } else { 15 }] as char;
+                        gen_query(&mut rng, format!("{}{zero}", e.0), per_word)
+                    }
+                    6 => {
+                        let c = rand_codon(&mut rng, alpha, len);
+                        gen_query(&mut rng, c, per_word)
+                    }
+                    _ => Query::Codon { amino: (*rng.pick(&pool) as char).to_string() },
+                });
+            }
+            threads.push(qs);
+        }
+        threads.truncate(threads_override.unwrap_or(t_full).max(1).min(4));
+        Plan { codec, entries, threads }
+    }
+
+    struct Ev {
+        thread: usize,
+        idx: usize,
+        start: usize,
+        end: usize,
+        q: Query,
+        got: String,
+    }
+
+    fn answer<A: CodonCodec>(table: &CodonTable<A, Amino>, q: &Query, alpha: &[u8]) -> String {
+        let got = catch_unwind(AssertUnwindSafe(|| match q {
+            Query::Amino { codon, pres, off, tail, fill } => {
+                ask::<A, _>(codon, pres, *off, *tail, *fill, alpha, |s| classify(&table.try_to_amino(s)))
+            }
+            Query::Codon { amino: a } => {
+                classify_codon(&table.try_to_codon(Amino::try_from_ascii(a.as_bytes()[0]).expect("harness: amino letter")))
+            }
+            Query::Noise { kind, arg } => {
+                let _ = crate::noise::run(kind, *arg);
+                "noise".into()
+            }
+        }));
+        match (q, got) {
+            (Query::Noise { .. }, _) => "noise".into(),
+            (_, Ok(s)) => s,
+            (_, Err(p)) => panic_text(p),
+        }
+    }
+
+    fn run_typed<A: CodonCodec>(p: &Plan) -> i32 {
+        let alpha = alphabet(p.codec);
+        let mut map: HashMap<Seq<A>, Amino> = HashMap::new();
+        for (c, a) in &p.entries {
+            map.insert(
+                Seq::<A>::try_from(c.as_str()).expect("harness: parse key"),
+                Amino::try_from_ascii(a.as_bytes()[0]).expect("harness: amino letter"),
+            );
+        }
+        let table: Arc<CodonTable<A, Amino>> = Arc::new(CodonTable::from_map(map));
+        let mut handles = Vec::new();
+        for (ti, qs) in p.threads.iter().enumerate() {
+            let table = Arc::clone(&table);
+            let qs = qs.clone();
+            let alpha: Vec<u8> = alpha.to_vec();
+            handles.push(crate::rt::thread::spawn(move || {
+                let mut evs = Vec::new();
+                for (idx, q) in qs.into_iter().enumerate() {
+                    let start = STAMP.fetch_add(1, Ordering::Relaxed);
+                    let got = answer::<A>(&table, &q, &alpha);
+                    let end = STAMP.fetch_add(1, Ordering::Relaxed);
+                    evs.push(Ev { thread: ti, idx, start, end, q, got });
+                }
+                evs
+            }));
+        }
+        let mut evs: Vec<Ev> = Vec::new();
+        let mut violations = 0;
+        for h in handles {
+            match h.join() {
+                Ok(v) => evs.extend(v),
+                Err(_) => {
+                    violations += 1;
+                    println!("SIM-VIOLATION class=thread-panicked op=- expected=join got=panic");
+                }
+            }
+        }
+        evs.sort_by_key(|e| e.start);
+        let mut digest = Digest::default();
+        let mut marks: Vec<(usize, String)> = Vec::new();
+        let mut any_overlap = false;
+        for a in &evs {
+            marks.push((a.start, format!("t{}s{}", a.thread, a.idx)));
+            marks.push((a.end, format!("t{}e{}", a.thread, a.idx)));
+            for b in &evs {
+                if a.thread < b.thread && a.start < b.end && b.start < a.end {
+                    any_overlap = true;
+                }
+            }
+        }
+        marks.sort();
+        for e in &evs {
+            let want = model_answer(&p.entries, &e.q);
+            println!("SIM-EV start={} end={} t{} #{} {} -> {}", e.start, e.end, e.thread, e.idx, e.q.describe(), e.got);
+            digest.feed_u64(e.start as u64);
+            digest.feed_u64(e.end as u64);
+            digest.feed(e.q.describe().as_bytes());
+            digest.feed(e.got.as_bytes());
+            if e.got != want {
+                violations += 1;
+                println!(
+                    "SIM-VIOLATION class={} op={} expected={} got={}",
+                    classify_violation(&e.q, &want, &e.got),
+                    e.q.describe().replace(' ', "_"),
+                    want.replace(' ', "_"),
+                    e.got.replace(' ', "_")
+                );
+            }
+        }
+        // afterwards, alone: every query once more (a wrong pair left behind in shared state shows here)
+        for e in &evs {
+            let want = model_answer(&p.entries, &e.q);
+            let again = answer::<A>(&table, &e.q, alpha);
+            digest.feed(again.as_bytes());
+            if again != want {
+                violations += 1;
+                println!(
+                    "SIM-VIOLATION class={}-after-quiescence op={} expected={} got={}",
+                    classify_violation(&e.q, &want, &again),
+                    e.q.describe().replace(' ', "_"),
+                    want.replace(' ', "_"),
+                    again.replace(' ', "_")
+                );
+            }
+        }
+        let sig: Vec<String> = marks.into_iter().map(|m| m.1).collect();
+        println!("SIM-SIG {}", sig.join(","));
+        println!("SIM-OVERLAP first_ops_concurrent={any_overlap} any_ops_concurrent={any_overlap}");
+        println!("SIM-END digest={:016x} events={} violations={violations}", digest.0, evs.len());
+        i32::from(violations > 0)
+    }
+
+    /// Returns the process exit code (0 held, 1 violation).
+    pub fn main(seed: u64, threads_override: Option<usize>, ops_override: Option<usize>) -> i32 {
+        std::panic::set_hook(Box::new(|_| {}));
+        let p = plan(seed, threads_override, ops_override);
+        println!("SIM-START c15-conc seed={seed} threads={}", p.threads.len());
+        println!("SIM-PLAN codec={} entries={:?}", p.codec, p.entries);
+        for (i, qs) in p.threads.iter().enumerate() {
+            let d: Vec<String> = qs.iter().map(Query::describe).collect();
+            println!("SIM-PLAN t{i} ops=[{}]", d.join("; "));
+        }
+        if p.codec == "dna" {
+            run_typed::<Dna>(&p)
+        } else {
+            run_typed::<Iupac>(&p)
+        }
+    }
 }
